@@ -614,6 +614,11 @@ class Symx:
                 self.sym_or_name(a, st)
             return Symbol('stream')
         a = [self.sym_or_name(x, st) for x in args]
+        if c.get('q', '').startswith('std::operator') and 'complex' in c.get('sig', ''):
+            if len(a) == 2 and op in ('+', '-', '*', '/'):
+                return {'+': a[0] + a[1], '-': a[0] - a[1], '*': a[0] * a[1], '/': a[0] / a[1]}[op]
+            if len(a) == 1 and op in ('+', '-'):
+                return a[0] if op == '+' else -a[0]
         if c.get('inrepo') and (c['q'] in self.inline or '*' in self.inline):
             fn = self.prog.by_sig(c.get('sig'))
             if fn is not None and self.depth < self.inline_depth:
@@ -632,6 +637,15 @@ class Symx:
                     return t[0]
                 return sp.Tuple(*t)
             return Function('vector', real=True)(*[self.sym_or_name(x, st) for x in args])
+        if q == 'std::complex':
+            real_args = [x for x in args if x.get('k') != 'DefaultArg']
+            vals = [self.sym(x, st) for x in real_args]
+            if len(vals) == 1:
+                return vals[0]
+            if len(vals) == 2:
+                return vals[0] + sp.I * vals[1]
+            if not vals:
+                return Integer(0)
         return Function('new:' + q, real=True)(*[self.sym_or_name(x, st) for x in args])
 
     # ------------------------------------------------------------------ rvalues / assignment
@@ -1117,9 +1131,22 @@ class Symx:
             self.exec = saved
 
     # counted loops ---------------------------------------------------------
-    def counted(self, s, st):
+    def counted(self, s, st, allow_extra_inc=False):
         """Recognise for(T i = lo; i < hi; i++) -> (decl, lo, hi_exclusive) or None."""
         init, cond, inc = s.get('init'), s.get('cond'), s.get('inc')
+        if allow_extra_inc and inc is not None:
+            parts = []
+            cur = strip(inc)
+            while cur.get('k') == 'Bin' and cur['op'] == ',':
+                parts.append(strip(cur['rhs']))
+                cur = strip(cur['lhs'])
+            parts.append(cur)
+            if len(parts) > 1 and init and init['k'] == 'Decl' and len(init['decls']) == 1:
+                vid = init['decls'][0]['id']
+                mine = [p_ for p_ in parts if (p_.get('k') == 'Un' and strip(p_['e']).get('id') == vid) or
+                        (p_.get('k') == 'Bin' and strip(p_.get('lhs', {})).get('id') == vid)]
+                if len(mine) == 1:
+                    inc = mine[0]
         if not init or not cond or not inc:
             return None
         var = None
